@@ -324,6 +324,56 @@ def has_repeated_arith_operand(*texts):
     return any(walk(sexprs(t)) for t in texts if t)
 
 
+def pddl_lib_drops_duplicate_effect(dom):
+    """True when the domain text has an `(and ...)` with the same increase/decrease effect twice AND the third-party
+    `pddl` parser alone (no unified_planning code involved) returns fewer increase/decrease effects than the text has:
+    its `And` is idempotent, which is wrong for additive effects"""
+    def dup(n):
+        if isinstance(n, list):
+            if n and n[0] == "and":
+                kids = [json.dumps(x) for x in n[1:] if isinstance(x, list) and x and x[0] in ("increase", "decrease")]
+                if len(set(kids)) < len(kids):
+                    return True
+            return any(dup(x) for x in n)
+        return False
+
+    def count_text(n):
+        if isinstance(n, list):
+            return (1 if n and n[0] in ("increase", "decrease") else 0) + sum(count_text(x) for x in n)
+        return 0
+    tree = sexprs(dom)
+    if not dup(tree):
+        return False
+    try:
+        from pddl.parser.domain import DomainParser
+        from pddl.logic.effects import AndEffect  # noqa: F401
+    except Exception:  # noqa
+        pass
+    try:
+        from pddl.parser.domain import DomainParser
+        from pddl.logic.functions import Increase, Decrease
+        d = DomainParser()(dom.lower())
+    except Exception:  # noqa
+        restore_tracebacks()
+        return False
+    finally:
+        restore_tracebacks()
+
+    def count_lib(x, seen):
+        if isinstance(x, (Increase, Decrease)):
+            return 1
+        n = 0
+        for attr in ("operands", "effect", "argument"):
+            v = getattr(x, attr, None)
+            if v is None:
+                continue
+            for y in (v if isinstance(v, (list, tuple)) else [v]):
+                n += count_lib(y, seen)
+        return n
+    lib = sum(count_lib(a.effect, set()) for a in d.actions)
+    return lib < count_text(tree)
+
+
 def diagnose(ctx, case, preamble=""):
     """the checker's own witness (failing kind, action sequence, instance), as printed by Coq"""
     return ctx.coq_show("run_check (%s)" % case, imports=IMPORTS, preamble=preamble)[:1500]
